@@ -224,6 +224,17 @@ def boundary_cases(vidx=0):
             {'op': 'create_solution', 'solute': ['nacl', 'na2so4'], 'solvent': 'water', 'name': 'N',
              'kw': {'concentration': ['1 M', '1 M'], 'quantity': qs}}, 'refuse')
     Ws = {'V': ('container', 'inf L', [('water', '5 mL')])}
+    # several solutes: a negative (or unreachable) entry is refused wherever it stands in the list
+    for pos in (0, 1, 2):
+        for key, good, bad_ in (('quantity', '2 mmol', '-1 mmol'), ('concentration', '0.1 M', '-0.05 M')):
+            for n_sol in (2, 3):
+                if pos >= n_sol:
+                    continue
+                vals = [good] * n_sol
+                vals[pos] = bad_
+                add(f"create_solution,negative-entry,{key},position={pos + 1}-of-{n_sol}", {}, [],
+                    {'op': 'create_solution', 'solute': ['nacl', 'na2so4', 'dmso'][:n_sol], 'solvent': 'water', 'name': 'N',
+                     'kw': {key: vals, 'total_quantity': '10 mL'}}, 'refuse')
     add('create_solution,container-solvent,exceeds-solvent', Ws, [],
         {'op': 'create_solution', 'solute': 'nacl', 'solvent': 'V', 'name': 'N',
          'kw': {'concentration': '0.1 M', 'total_quantity': '50 mL'}}, 'refuse')
